@@ -73,6 +73,18 @@ OT_Thunks ==
      << Th("O", "x"), Th("O", "z") >>,
      << Th("M", "a"), Th("M", "b"), Th("O", "y") >> >>
 
+\* F20: lists, lists of lists, abstract lists, merged occurrences, arguments (C20)
+F20_Leafs(t) == CASE t = "Q" -> { SelA("", "f", <<[n |-> "y", v |-> IntV("2")]>>),
+                                  SelA("g", "f", <<[n |-> "y", v |-> VarRef("i1")]>>) }
+                  [] t = "O" -> { Sel("", "x"), Sel("k", "x") }
+                  [] t = "I" -> { Sel("", "x") }
+                  [] t = "A" -> { Sel("", "p") }
+                  [] OTHER -> {}
+F20_Comps(t) == CASE t = "Q" -> { Sel("", "l"), Sel("", "ll"), Sel("", "il"), Sel("m", "l") }
+                  [] t = "O" -> { Sel("", "z") }
+                  [] OTHER -> {}
+F20_Inlines(t) == IF t = "I" THEN { "A" } ELSE {}
+
 \* F5: arguments (literal / variable / defaults), see also C05
 F5_Leafs(t) ==
   IF t # "Q" THEN {} ELSE
